@@ -133,6 +133,33 @@ def source_table():
     vals = [int(x, 16) for x in re.findall(r"0x([0-9a-fA-F]{2})", m.group(1))]
     return sum(v << (8 * k) for k, v in enumerate(vals)) if len(vals) == 128 else None
 
+def nostd_cases(inner):
+    """Run the harness built WITHOUT the `std` feature (dashu-base then uses the LOG2_TAB estimator) over
+    `inner` = [(op, args)], and wrap each answer into an `ns <answer> <op> <args…>` case: the registered (std)
+    harness echoes the answer, the model computes the no_std estimator (and checks the enclosure exactly)."""
+    import os, subprocess, tempfile
+    from vlib import core
+    tdir = os.path.join(core.CACHE, "harness-target-nostd")
+    rc, out = core.run(["cargo", "build", "--offline", "--no-default-features", "--bin", "exec_nt"], cwd=core.HARNESS,
+                       env={"RUSTFLAGS": "--cfg dashu_verif", "CARGO_TARGET_DIR": tdir}, timeout=3600)
+    exe = os.path.join(tdir, "debug", "exec_nt")
+    if rc != 0 or not os.path.exists(exe):
+        # the libraries no longer build without `std`: make it visible as a disagreement
+        return [Case("ns", ["nostd-build-failed", inner[0][0]] + list(inner[0][1]))]
+    d = tempfile.mkdtemp(prefix="verif-nostd-")
+    try:
+        path = os.path.join(d, "cases.txt")
+        core.write_cases(path, [Case(op, args) for op, args in inner])
+        res = core.run_side(exe, path, len(inner), 120, "nostd")
+    finally:
+        import shutil
+        shutil.rmtree(d, ignore_errors=True)
+    out = []
+    for i, (op, args) in enumerate(inner):
+        ans = res.get(i, "missing").replace(" ", "~")
+        out.append(Case("ns", [ans, op] + [str(a) for a in args]))
+    return out
+
 def nontrivial(c):
     import re
     return any(len(a.lstrip('-')) > 32 for a in c.args if re.fullmatch(r"-?[0-9a-f]+", a)) or c.op.startswith("p.")
@@ -270,6 +297,26 @@ def generate(rng, tier):
         yield Case("p.sqrtrange", ["u16", dec(lo), dec(lo + 256)])
         yield Case("p.cbrtrange", ["u16", dec(lo), dec(lo + 256)])
         yield Case("p.log2brange", ["u16", dec(lo), dec(lo + 256)])
+    # ---- the no_std build (table estimator log2_fp8 / ceil_log2_fp8): all u8, u16 blocks, wider types, UBig
+    inner = []
+    for lo in range(0, 256, 64):
+        inner.append(("p.log2brange", ["u8", dec(lo), dec(lo + 64)]))
+    for lo in (blocks if not q else rng.sample(blocks, 12) + [0, 256, 65280]):
+        inner.append(("p.log2brange", ["u16", dec(lo), dec(lo + 256)]))
+    for i in range(150 if q else 4000):
+        ty = rng.choice(["u32", "u64", "u128"])
+        bits = int(ty[1:])
+        v = prim_val(rng, bits)
+        c = rng.random()
+        if c < 0.3:       # top 16 bits at a table boundary, low bits all ones / zero (the ceiling must cover them)
+            hi = rng.choice([0x8000, 0x8001, 0xffff, 0xff00, 0x8080, rng.randrange(0x8000, 0x10000)])
+            sh = rng.randrange(1, bits - 15)
+            v = (hi << sh) | rng.choice([0, (1 << sh) - 1, rng.getrandbits(sh)])
+        inner.append(("p.log2b", [ty, hx(v)]))
+    for i in range(60 if q else 1500):
+        inner.append(("u.log2b", [hx(big(rng, tier))]))
+    for c in nostd_cases(inner):
+        yield c
     if not q:
         for a in rng.sample(range(65536), 300) + [0, 1, 2, 65535, 32768, 255, 256]:
             lo = rng.choice(blocks)
@@ -277,12 +324,13 @@ def generate(rng, tier):
 
 REFINED = ["gcd_ops.rs dispatch (gcd / gcd_ext over inline/heap operands) and IBig sign handling", "gcd_large_dword",
            "gcd::gcd_ext_word / gcd_ext_dword (coefficient recovery |b| = q*|t| + |s|)", "gcd_ext_large post-processing (one product + exact division)",
-           "base ring/gcd.rs unchecked_gcd_ext (Euclid with cofactors)", "lehmer_guess / lehmer_step cofactor matrix (determinant 1 => gcd preserved)",
+           "base ring/gcd.rs unchecked_gcd_ext (Euclid with cofactors)", "base ring/gcd.rs Gcd::gcd + unchecked_gcd (binary gcd with the one-division shortcut)", "lehmer_guess / lehmer_step cofactor matrix (determinant 1 => gcd preserved)",
            "nth_root Newton iteration (up then down) and its stopping rule", "sqrt_rem_large normalisation / de-normalisation of root and remainder",
            "log_dword / log_word_base / log_large correction loops for any admissible first guess", "UBig::remove (squaring tower up, then down)",
            "IBig::nth_root / sqrt / cbrt sign rules and panics"]
 FRONTIER = ["gcd::gcd_in_place / gcd_ext_in_place (Lehmer loop over multi-word operands): specified by Nat.gcd / the Euclid loop",
-            "base ring/gcd.rs binary gcd (unchecked_gcd) and the two-width u128 gcd_ext: mirrored/executed, specified by Nat.gcd",
+            "base ring/gcd.rs two-width u128 gcd_ext (Euclid in two word sizes, cofactors recombined): specified by the single-width loop",
+            "(a | b).trailing_zeros() is modelled as min(tz a, tz b)",
             "root::sqrt_rem (Zimmermann Karatsuba square root) and sqrt_rem_42: specified by the floor square root",
             "base ring/root.rs normalized_sqrt_rem / normalized_cbrt_rem (table + Newton): specified by the floor root, compared exhaustively for u8/u16",
             "f32 log2 first guesses of ilog: a parameter with the hypothesis the code asserts (base^est <= x)",
@@ -313,7 +361,7 @@ LEVEL_NOTE = ("Trusted: Lean kernel; axioms propext/Classical.choice/Quot.sound;
               "kernels listed in evidence are specified, not verified; the f32 log2 estimator is not the subject of a theorem — its "
               "bounds are checked exactly per sampled input (std build only; the no_std table estimator has a table theorem).")
 TECHNIQUE = "Lean 4 refinement/termination proofs (fuel + bound theorems) + differential correspondence + exact per-call enclosure checks"
-THEOREMS = ["Dashu.Props.C12." + t for t in ["gcd_spec", "gcd_ext_prim_spec", "gcd_ext_bezout", "gcd_ext_bezout_driver", "lehmer_guess_det",
+THEOREMS = ["Dashu.Props.C12." + t for t in ["gcd_prim_spec", "gcd_spec", "gcd_ext_prim_spec", "gcd_ext_bezout", "gcd_ext_bezout_driver", "lehmer_guess_det",
             "lehmer_step_preserves_gcd", "sqrt_rem_spec", "nth_root_spec", "cbrt_rem_spec", "ibig_root_spec", "ilog_spec", "remove_spec",
             "log2_table_sound", "nth_root_zero_asIs_counterexample", "sqrt_rem_asIs_counterexample", "ibig_cbrt_asIs_counterexample",
             "ilog_zero_asIs_counterexample", "gcd_ext_post_precondition_counterexample"]]
